@@ -905,6 +905,32 @@ def with_vars(fn, pred):
     return out
 
 
+def consuming_calls(fn, node, depth=3):
+    """The calls that receive the value of expression `node` of function `fn` as an argument: its parent call, or -- when
+    the value is first bound to a local with that single definition -- the calls that take that local."""
+    p = parent(node)
+    if isinstance(p, ast.Call) and any(a is node for a in p.args):
+        return [p]
+    if isinstance(p, ast.keyword):
+        pp = parent(p)
+        return [pp] if isinstance(pp, ast.Call) else []
+    if depth > 0 and isinstance(p, ast.Assign) and len(p.targets) == 1 and isinstance(p.targets[0], ast.Name) and p.value is node:
+        name = p.targets[0].id
+        if local_value(fn, name) is not node:
+            return []
+        out = []
+        for u in walk_local(fn):
+            if isinstance(u, ast.Name) and u.id == name and isinstance(u.ctx, ast.Load):
+                out.extend(consuming_calls(fn, u, depth - 1))
+        return out
+    return []
+
+
+def role_expr(fn, expr):
+    """`expr` of function `fn` as an AST with every single-definition local replaced by its definition (see role_text)."""
+    return ast.parse(role_text(fn, expr), mode="eval").body
+
+
 def role_text(fn, expr, depth=6, params_as=None):
     """Text of `expr` (an expression of function `fn`) that does not depend on the names of locals: every local of `fn`
     with a single definition is replaced by its definition (recursively), and the variables bound by comprehensions /
